@@ -97,9 +97,12 @@ fn sni_h2_fallback() {
     );
     assert_eq!(flag(&req), Some(false));
 
-    let mut req = tls_req(http::Version::HTTP_2, "/path", Some("example.com:8443"), Some("example.com"));
-    assert!(handle(&mut req).is_none());
-    assert_eq!(flag(&req), Some(true), "HTTP/2 request naming the server name in its Host header is not marked");
+    for host in ["example.com:8443", "EXAMPLE.com"] {
+        let mut req = tls_req(http::Version::HTTP_2, "/path", Some(host), Some("example.com"));
+        let r = handle(&mut req);
+        assert!(r.is_none(), "HTTP/2 request with Host {host:?} and SNI example.com was rejected: {r:?}");
+        assert_eq!(flag(&req), Some(true), "HTTP/2 request naming the server name in its Host header is not marked");
+    }
 }
 
 /// sni.no_host: the request names no host => passed on, nothing marked
